@@ -124,7 +124,7 @@ def retry_twice(h):
     if k2 == "raise":
         return h.fail("second_fit_completes", f"raised {r2}")
     h.ensures("first_failing_fit_is_retried", len(model.calls) == 2 and model.calls[1]["normalize_weights"] is False)
-    h.ensures("second_failing_fit_is_retried_too", len(model2.calls) == 2 and model2.calls[1]["normalize_weights"] is False, why=f"{len(model2.calls)} solve attempt(s) for the second failing fit")
+    h.ensures("second_failing_fit_is_retried_too", len(model2.calls) == 2 and model2.calls[1]["normalize_weights"] is False, why=f"{len(model2.calls)} solve attempt(s) for the second failing fit", replay=lambda ev: {"target": "verif_replays:fit_model_twice", "args": ["SolverError"], "check": "result['ok']"})
 
 
 @unit("C20", "reach", fns=[f"{CO}.fit_model"])
